@@ -14,6 +14,7 @@ failure reporting the quadratic energy of the result is not above the start and 
 negative curvature gives the steepest-descent point."""
 import json
 import math
+import os
 from fractions import Fraction as Fr
 
 import numpy as np
@@ -301,6 +302,92 @@ def gen_configs(rng, h, M, j, x0):
     return res
 
 
+def _dyadic(fr, bits=30):
+    d = fr.denominator
+    return d & (d - 1) == 0 and abs(fr.numerator).bit_length() <= bits and d.bit_length() <= bits
+
+
+def exact_termination(M, j, x0):
+    """m >= 0 if the exact CG trajectory reaches a residual of exactly zero at iteration m (0: already at
+    the start) AND every quantity on the way is a short dyadic rational -- then float64 computes the very
+    same numbers in any evaluation order, the residual is exactly 0.0 and `gamma <= tiny` is not a tie.
+    None otherwise."""
+    n = len(j)
+    Mf = [[Fr(v) for v in row] for row in M]
+    jf = [Fr(v) for v in j]
+    xf = None if x0 is None else [Fr(v) for v in x0]
+    rows, end, start = trajectory(Mf, jf, xf, n + 1)
+    if end == "start0":
+        return 0
+    if end != "gamma0":
+        return None
+    vals = [start["gamma0"], start["e0"]] + list(start["r0"])
+    for row in rows:
+        vals += [row["curv"], row["gamma"], row["energy"], row["ediff"], row["norm1"]] + list(row["pos"])
+    gam = start["gamma0"]
+    for row in rows:
+        vals.append(gam / row["curv"])
+        if row["gamma"] != 0:
+            vals.append(row["gamma"] / gam)
+        gam = row["gamma"]
+    if not all(_dyadic(Fr(v)) for v in vals):
+        return None
+    return len(rows)
+
+
+EXACT_LIBRARY = [
+    ([[2]], [3]), ([[4]], [-1]), ([[1]], [5]), ([[8]], [2]),
+    ([[2, 0], [0, 2]], [1, -3]), ([[4, 0, 0], [0, 4, 0], [0, 0, 4]], [1, 2, -1]),
+    ([[1, 0, 0, 0], [0, 1, 0, 0], [0, 0, 1, 0], [0, 0, 0, 1]], [2, -1, 0, 3]),
+    ([[3, 1], [1, 3]], [2, 2]), ([[3, 1], [1, 3]], [1, -1]), ([[5, 3], [3, 5]], [-2, -2]), ([[5, 3], [3, 5]], [3, -3]),
+    ([[4, 0, 0], [0, 7, 0], [0, 0, 9]], [3, 0, 0]), ([[2, 0, 0], [0, 3, 1], [0, 1, 3]], [0, 1, 1]),
+    ([[6, 2, 0], [2, 6, 0], [0, 0, 5]], [1, 1, 0]), ([[3, -1, 0, 0], [-1, 3, 0, 0], [0, 0, 7, 0], [0, 0, 0, 2]], [2, 2, 0, 0]),
+]
+
+
+def gen_exact_cases(rng, quick):
+    """Systems on which CG terminates EXACTLY (operator proportional to the identity, right-hand side an
+    eigenvector with a power-of-two eigenvalue, 1x1 systems, start = solution) before `miniter`."""
+    systems = []
+    for M, j in EXACT_LIBRARY:
+        systems.append((M, j, None))
+    systems.append(([[2, 0], [0, 2]], [1, -3], [0.5, -1.5]))          # start = solution: gamma0 == 0
+    systems.append(([[3, 1], [1, 3]], [2, 2], [1.0, 1.0]))            # start on the eigen-line
+    for _ in range(4000):
+        if len(systems) >= (24 if quick else 60):
+            break
+        n = int(rng.integers(1, 5))
+        A = rng.integers(-3, 4, size=(n, n))
+        Mi = A + A.T + np.diag(rng.integers(0, 9, size=n))
+        ji = rng.integers(-3, 4, size=n)
+        if not np.any(ji):
+            continue
+        M, j = [[int(v) for v in row] for row in Mi], [int(v) for v in ji]
+        m = exact_termination(M, j, None)
+        if m is not None and m >= 1:
+            systems.append((M, j, None))
+    base = {"absdelta": None, "resnorm": None, "norm_ord": 1, "tol": 1e-5, "atol": 0.0, "miniter": None, "maxiter": None, "raise": True}
+    cfgs = [dict(base), dict(base, maxiter=5), dict(base, miniter=3, maxiter=5), dict(base, miniter=4),
+            dict(base, resnorm=1e-3), dict(base, resnorm=1e-3, norm_ord=2, maxiter=7), dict(base, absdelta=1e-3),
+            dict(base, absdelta=1e-3, miniter=5, maxiter=6), dict(base, absdelta=1e-3, resnorm=1e-3, maxiter=4),
+            dict(base, **{"raise": False}), dict(base, miniter=0, maxiter=2)]
+    cases = []
+    for M, j, x0 in systems:
+        m = exact_termination(M, j, x0)
+        if m is None:
+            continue
+        n = len(j)
+        idx = rng.permutation(len(cfgs))[: (3 if quick else 6)]
+        for i in sorted(idx):
+            kw = dict(cfgs[i])
+            mx = kw["maxiter"]
+            if mx is not None and mx < m:
+                continue
+            tree = "flat" if n == 1 else ["flat", "dict", "nested"][int(rng.integers(0, 3))]
+            cases.append({"M": M, "j": j, "x0": x0, "kw": kw, "tree": tree, "kind": "exact", "nreset": 20, "prec": False})
+    return cases
+
+
 def gen_cases(ctx, salt=15, nsys=None):
     rng = ctx.rng(salt)
     nsys = nsys or (18 if ctx.quick else 150)
@@ -333,7 +420,7 @@ def gen_cases(ctx, salt=15, nsys=None):
             cases.append({"M": M, "j": j, "x0": x0, "kw": {k: v for k, v in cfgs[i].items() if not k.startswith("_")},
                           "tree": tree, "kind": kind, "nreset": nreset, "prec": bool(cfgs[i].get("_prio"))})
         nsel += 1
-    return cases
+    return cases + gen_exact_cases(rng, ctx.quick)
 
 
 # --------------------------------------------------------------------------------------------------
@@ -406,6 +493,82 @@ def _run_both(cgm, mat, jt, x0, kwargs, out):
 # --------------------------------------------------------------------------------------------------
 # direct oracle (property on the implementation, no Coq)
 # --------------------------------------------------------------------------------------------------
+
+def run_cases(cases, module="harness.props.c15", prop="C15", chunk=60, jobs=4, timeout=2400):
+    """Run the implementation on the cases in worker subprocesses of bounded size (a long-lived process that
+    compiles thousands of XLA programs runs out of memory mappings: "LLVM compilation error: Cannot allocate
+    memory").  Each worker handles one slice and returns JSON; a failed worker is retried once in halves."""
+    import subprocess
+    import sys
+    if not cases:
+        return []
+    d = C.run_dir(prop)
+    chunk = max(1, min(chunk, -(-len(cases) // jobs)))
+    nsl = -(-len(cases) // chunk)
+    slices = [(k, cases[k::nsl]) for k in range(nsl)]        # strided: expensive neighbours are spread over the workers
+    results = {}
+
+    def launch(k, sl, tag):
+        fin = os.path.join(d, "worker_%s_%d.in.json" % (tag, k))
+        fout = os.path.join(d, "worker_%s_%d.out.json" % (tag, k))
+        json.dump(sl, open(fin, "w"))
+        if os.path.exists(fout):
+            os.remove(fout)
+        p = subprocess.Popen([sys.executable, "-m", module, "--worker", fin, fout], cwd=C.HOME,
+                             stdout=subprocess.PIPE, stderr=subprocess.STDOUT, text=True)
+        return p, fout
+
+    pending = list(slices)
+    running = []
+    failed = []
+    while pending or running:
+        while pending and len(running) < jobs:
+            k, sl = pending.pop(0)
+            running.append((k, sl) + launch(k, sl, "a"))
+        k, sl, p, fout = running.pop(0)
+        try:
+            out, _ = p.communicate(timeout=timeout)
+        except subprocess.TimeoutExpired:
+            p.kill()
+            out = "[timeout]"
+        if p.returncode == 0 and os.path.exists(fout):
+            results[k] = json.load(open(fout))
+        else:
+            failed.append((k, sl, out))
+    for k, sl, out in failed:                      # retry once, in halves, sequentially
+        res = []
+        h = max(1, len(sl) // 2)
+        for q, part in ((0, sl[:h]), (1, sl[h:])):
+            if not part:
+                continue
+            p, fout = launch(k, part, "r%d" % q)
+            try:
+                o2, _ = p.communicate(timeout=timeout)
+            except subprocess.TimeoutExpired:
+                p.kill()
+                o2 = "[timeout]"
+            if p.returncode != 0 or not os.path.exists(fout):
+                raise C.MachineryError("implementation worker failed twice (rc %s):\n%s\n%s" % (p.returncode, out[-1500:], o2[-1500:]))
+            res += json.load(open(fout))
+        results[k] = res
+    obs = [None] * len(cases)
+    for k, sl in slices:
+        if len(results[k]) != len(sl):
+            raise C.MachineryError("implementation worker returned %d observations for %d cases" % (len(results[k]), len(sl)))
+        obs[k::nsl] = results[k]
+    return obs
+
+
+def worker_main(argv, run_one):
+    import jax
+    cases = json.load(open(argv[0]))
+    out = []
+    for i, c in enumerate(cases):
+        out.append(run_one(c))
+        if i % 15 == 14:
+            jax.clear_caches()
+    json.dump(out, open(argv[1], "w"))
+
 
 def energy(M, j, x):
     return 0.5 * x @ M @ x - x @ j
@@ -567,7 +730,7 @@ class C15(C.Check):
         self.obs = []
 
     def _run(self, cases):
-        return [run_impl(c) for c in cases]
+        return run_cases(cases)
 
     def correspondence(self, ctx, res):
         corpus = [c for c in ctx.corpus()]
@@ -590,7 +753,8 @@ class C15(C.Check):
             dist[key] = dist.get(key, 0) + 1
         res.coverage.update({
             "evaluations": len(self.cases), "distinct_nontrivial": len(nontriv),
-            "rule": "symmetric integer systems n=2..4 (HPD, indefinite, negative definite, singular, diagonal), x0 None or half-integers, flat/dict/nested pytrees; "
+            "rule": "symmetric integer systems n=2..4 (HPD, indefinite, negative definite, ill-conditioned, singular, diagonal), x0 None or half-integers, flat/dict/nested pytrees; "
+                    "systems with EXACT early termination in float64 (c*identity, eigenvector right-hand sides with power-of-two eigenvalues, 1x1, start = solution) under default/large miniter; "
                     "stopping configurations placed between values of the exact CG trajectory (resnorm ord 1/2, tol/atol fallback, absdelta, miniter incl. default, "
                     "maxiter = convergence iteration / one less / one more / default / 0, failure reporting on/off); non-trivial = at least one iteration or a reported failure; "
                     "distinct by (kind, x0?, tree, ord, absdelta?, resnorm?, miniter, maxiter, raise, verdict, info, nit)",
@@ -619,9 +783,9 @@ class C15(C.Check):
             report(c, o)
         if budget > 1 and not [f for f in res.failing if f["signature"]["class"] != "maxiter=0"]:
             extra = gen_cases(ctx, salt=1515, nsys=60)
-            for c in extra:
+            for c, o in zip(extra, run_cases(extra)):
                 nev += 1
-                report(c, run_impl(c))
+                report(c, o)
                 if [f for f in res.failing if f["signature"]["class"] != "maxiter=0"]:
                     break
         res.coverage["impl_property_evaluations"] = nev
@@ -639,3 +803,8 @@ def strip(case):
 
 
 CHECK = C15()
+
+if __name__ == "__main__":
+    import sys
+    if len(sys.argv) >= 4 and sys.argv[1] == "--worker":
+        worker_main(sys.argv[2:4], run_impl)
